@@ -4,9 +4,12 @@ mod c01;
 mod c02;
 mod c04;
 mod c08;
+mod c09;
+mod c10;
 mod c11;
 mod c12;
 mod c16;
+mod c19;
 mod c20;
 mod core;
 mod lc;
@@ -27,9 +30,12 @@ fn prop_by_id(id: &str) -> Option<Box<dyn Prop>> {
         "C05" => Box::new(lc::LcProp(lc::Which::C05)),
         "C06" => Box::new(lc::LcProp(lc::Which::C06)),
         "C07" => Box::new(lc::LcProp(lc::Which::C07)),
+        "C09" => Box::new(c09::C09),
+        "C10" => Box::new(c10::C10),
         "C11" => Box::new(c11::C11),
         "C12" => Box::new(c12::C12),
         "C16" => Box::new(c16::C16),
+        "C19" => Box::new(c19::C19),
         "C20" => Box::new(c20::C20Prop),
         "C15" => Box::new(rem::C15),
         _ => return None,
